@@ -1,0 +1,56 @@
+//! Verification hooks (compiled only with `--cfg amiquip_verif`).
+//!
+//! Thin, add-only access paths that let an external harness drive private pieces of the crate
+//! single-threaded. Nothing here changes behaviour; with the cfg off this module does not exist.
+
+pub use crate::frame_buffer::FrameBuffer;
+pub use crate::io_loop::verif_probe::*;
+
+use crate::connection_options::ConnectionOptions;
+use crate::{Auth, Result};
+use amq_protocol::protocol::connection::Tune;
+use std::time::Duration;
+
+/// `ConnectionOptions::make_tune_ok` on (channel_max, frame_max, heartbeat) triples.
+pub fn tune_ok(client: (u16, u32, u16), server: (u16, u32, u16)) -> Result<(u16, u32, u16)> {
+    let options = ConnectionOptions::<Auth>::default()
+        .channel_max(client.0)
+        .frame_max(client.1)
+        .heartbeat(client.2);
+    let ok = options.make_tune_ok(Tune {
+        channel_max: server.0,
+        frame_max: server.1,
+        heartbeat: server.2,
+    })?;
+    Ok((ok.channel_max, ok.frame_max, ok.heartbeat))
+}
+
+/// What `Connection::open*` derives from a URL before touching the network.
+pub struct DecodedUrl {
+    pub secure: bool,
+    pub host: Option<String>,
+    pub port: Option<u16>,
+    pub auth: Auth,
+    pub virtual_host: String,
+    pub heartbeat: u16,
+    pub channel_max: u16,
+    pub frame_max: u32,
+    pub locale: String,
+    pub connection_timeout: Option<Duration>,
+}
+
+pub fn url_decode(url: &str) -> Result<DecodedUrl> {
+    let (secure, url, options) = crate::connection::verif_decode(url)?;
+    Ok(DecodedUrl {
+        secure,
+        host: url.host_str().map(|s| s.to_string()),
+        port: url.port(),
+        auth: options.auth.clone(),
+        virtual_host: options.virtual_host.clone(),
+        heartbeat: options.heartbeat,
+        channel_max: options.channel_max,
+        frame_max: options.frame_max,
+        locale: options.locale.clone(),
+        connection_timeout: options.connection_timeout,
+    })
+}
